@@ -362,7 +362,10 @@ def gen_manifest(rnd):
     m = Man()
     nsrc = rnd.randint(2, 5)
     m.sources = ["src/s%d.txt" % i for i in range(nsrc)]
-    m.headers = ["hdr/h%d.h" % i for i in range(rnd.randint(1, 3))]
+    # header names include characters that the depfile must escape (space, '#', '$', backslash is avoided: it is a path separator to nobody
+    # here but would make shell-free helper arguments harder to read); the helper writes them with the documented escaping
+    _odd = ["hdr/my hdr%d.h", "hdr/h#%d.h", "hdr/h$%d.h", "hdr/a b#%d.h"]
+    m.headers = [(rnd.choice(_odd) if rnd.random() < 0.5 else "hdr/h%d.h") % i for i in range(rnd.randint(1, 3))]
     m.late = ["src/l%d.txt" % i for i in range(rnd.choice([0, 1, 1, 2]))]
     if rnd.random() < 0.5:
         m.pools["p1"] = 1
